@@ -217,6 +217,7 @@ def recount(out, prefix, gene_strategy, transcript_strategy, mono_isoforms):
         sums = {}
         confirmed = set()
         n_amb = n_nof = 0
+        per_id = {}
         for key, d in per_read.items():
             feats = d["g"] if level == "gene" else d["t"]
             atype = d["type"] if level == "transcript" else (d["gtype"] or d["type"])
@@ -226,6 +227,7 @@ def recount(out, prefix, gene_strategy, transcript_strategy, mono_isoforms):
             if atype == "ambiguous":
                 n_amb += 1
             w = weight(strategy, atype, len(feats))
+            per_id[d["id"]] = per_id.get(d["id"], 0.0) + w * len(feats)
             for f in feats:
                 sums[f] = sums.get(f, 0.0) + w
             if atype in ("unique", "unique_minor_difference"):
@@ -236,6 +238,10 @@ def recount(out, prefix, gene_strategy, transcript_strategy, mono_isoforms):
                     spliced = any(c > 1 for c in bed.get((d["id"], d["chr"]), []))
                     if spliced or f in mono_isoforms:
                         confirmed.add(f)
+        heavy = sorted(rid for rid, v in per_id.items() if v > 1.0 + 1e-6)
+        if heavy:
+            errs.append(("read-weight-above-one", "%s table: read %s is reported at several loci and contributes %.2f in total" %
+                         (level, heavy[0], per_id[heavy[0]])))
         header, table = run.parse_counts(run.find(out, prefix, ".%s_counts.tsv" % level))
         if table is None:
             errs.append(("table-missing", "%s counts table missing" % level))
@@ -346,6 +352,12 @@ def l2_world(variant):
         w["genes"].append(W.locus_gene("_GU", "chr2", "+", 5000, {"_TU1": [0, 1, 2]}))
         syn.plant_for_transcripts(w)
         add(W.exons(5000, [0, 1, 2]), chrom="chr2", count=3)
+        # multi-mapped reads with both alignments on ONE chromosome: primary FSM of T1 / secondary on the mono-exonic gene G3, and
+        # primary FSM of T4 / secondary FSM of T5's locus on chr2: the losing alignment must not be counted
+        reads.append(W.read_of("mmS1", "chr1", W.exons(1000, [0, 1, 2, 3, 4])))
+        reads.append(W.read_of("mmS1", "chr1", [[5351, 5850]], secondary=True))
+        reads.append(W.read_of("mmS2", "chr2", W.exons(1000, [0, 1, 2, 3]), strand="-"))
+        reads.append(W.read_of("mmS2", "chr2", W.exons(1000, [0, 1, 3]), strand="-", secondary=True))
         reads.append({"name": "unm1", "unmapped": True})
         reads.append({"name": "unm2", "unmapped": True})
         add([[1001, 1200], [1601, 1800]], polya=False, mapq=0)     # low MAPQ consistent
